@@ -77,6 +77,8 @@ class ExecBase:
         self.enum_cache = {}
         self.n_forks = 0
         self.abstracted = []
+        self.axioms = []
+        self._axiom_ids = set()
         self.max_states = int(self.opts.get("max_states", 4000))
 
     # ------------------------------------------------------------------------------------------
@@ -84,6 +86,14 @@ class ExecBase:
     def oos(self, msg, node=None):
         ln = getattr(node, "lineno", "?")
         raise OutOfSubset(f"{self.fn_qual}: {msg} (line {ln})")
+
+    def axiom(self, fact):
+        """a fact about a total uninterpreted function (stdlib model, key sequences, ...): true on every path, so it is kept out of the
+        path conditions (where it would end up inside merge conditions) and added to every obligation of the function"""
+        key = fact.get_id()
+        if key not in self._axiom_ids:
+            self._axiom_ids.add(key)
+            self.axioms.append(fact)
 
     def guard_cond(self):
         return z3.And(*self.guards) if self.guards else None
